@@ -16,3 +16,29 @@ Lemma no_ambient_input_C08 : ambient_input_sites_C08 = [].
 Proof. reflexivity. Qed.
 Lemma sources_were_scanned_C08 : source_files_scanned_C08 <> 0.
 Proof. discriminate. Qed.
+
+(* The types this property reaches get Clone / Copy / PartialEq / Eq / Hash / Ord / PartialOrd by `derive` only
+   (field-wise semantics, which is what the models assume: e.g. comparing a NormalizedString compares
+   (array, length), cloning a cipher half copies every field) and none of them, nor Drop, is written by hand.
+   The list is re-read from the source on every run; a hand-written `impl Clone` (whose `clone_from` may leave
+   stale bytes behind), a hand-written comparison, or a derive removed from a type shows here. *)
+Local Open Scope string_scope.
+Lemma structural_traits_pinned_C08 : structural_traits_C08 =
+  ["src/error.rs: InvalidPublicKeyError derives Debug";
+   "src/error.rs: MatchProofsError derives Debug";
+   "src/error.rs: NormalizedStringError derives Debug";
+   "src/error.rs: SrpError derives Debug";
+   "src/error.rs: UnsplitCryptoError derives Debug";
+   "src/key.rs: $name derives Clone Copy Debug Eq Hash Ord PartialEq PartialOrd";
+   "src/normalized_string.rs: NormalizedString derives Clone Debug Eq Hash Ord PartialEq PartialOrd";
+   "src/tbc_header/decrypt.rs: DecrypterHalf derives Clone Debug Eq Hash Ord PartialEq PartialOrd";
+   "src/tbc_header/encrypt.rs: EncrypterHalf derives Clone Debug Eq Hash Ord PartialEq PartialOrd";
+   "src/tbc_header/mod.rs: HeaderCrypto derives Clone Debug Eq Hash Ord PartialEq PartialOrd";
+   "src/tbc_header/mod.rs: ProofSeed derives Clone Copy Debug Eq Hash Ord PartialEq PartialOrd";
+   "src/vanilla_header/decrypt.rs: DecrypterHalf derives Clone Debug Eq Hash Ord PartialEq PartialOrd";
+   "src/vanilla_header/encrypt.rs: EncrypterHalf derives Clone Debug Eq Hash Ord PartialEq PartialOrd";
+   "src/vanilla_header/mod.rs: ClientHeader derives Clone Copy Debug Eq Hash Ord PartialEq PartialOrd";
+   "src/vanilla_header/mod.rs: HeaderCrypto derives Clone Debug Eq Hash Ord PartialEq PartialOrd";
+   "src/vanilla_header/mod.rs: ProofSeed derives Clone Copy Debug Eq Hash Ord PartialEq PartialOrd";
+   "src/vanilla_header/mod.rs: ServerHeader derives Clone Copy Debug Eq Hash Ord PartialEq PartialOrd"].
+Proof. reflexivity. Qed.
